@@ -239,6 +239,11 @@ class Exec(ExprMixin, CallMixin):
                     self.cover["reachable"] += 1
                 elif r == z3.unknown:
                     self.cover["unknown"] += 1
+        # an annotation that is attached to a statement but was never applied on any executed path would silently do nothing
+        for group in (contract.lemmas, contract.cuts, contract.ghost_updates):
+            for anchor in group:
+                if anchor not in self.used_anchors:
+                    raise Unsupported(f"annotation anchored at {anchor!r} was never applied (statement kind not instrumented or unreachable)")
         return self.obligations
 
     def verify_lemma(self, lm):
@@ -387,6 +392,10 @@ class Exec(ExprMixin, CallMixin):
             res = self.coerce_checked(st, res, parse_type(c.returns), "return value")
         env = dict(st.old.locals)
         env["result"] = res
+        for g in c.ghost_init:
+            # ghost variables are read in their final state (old(g) gives the initial one)
+            if g in st.locals:
+                env[g] = st.locals[g]
         self.witness_cands = [v.e for k, v in st.locals.items() if k.startswith("_i") and isinstance(v, VInt)]
         for nm, ty in c.exposes.items():
             if nm in st.locals:
@@ -449,7 +458,7 @@ class Exec(ExprMixin, CallMixin):
         if m is None:
             raise Unsupported(f"statement {type(s).__name__} at line {s.lineno}")
         self.exc_out = []
-        if isinstance(s, (ast.Assign, ast.Expr, ast.AugAssign, ast.Return, ast.If)):
+        if isinstance(s, (ast.Assign, ast.Expr, ast.AugAssign, ast.Return, ast.If, ast.For, ast.While)):
             self.lemmas_at(s, st, before=True)
         try:
             res = m(s, st)
@@ -568,6 +577,7 @@ class Exec(ExprMixin, CallMixin):
         rhs = self.eval(s.value, st)
         v = self.binop(s.op, cur, rhs, st, s)
         self.assign(s.target, v, st)
+        self.lemmas_at(s, st)
         return [(st, NORMAL)]
 
     def assign(self, t, v, st):
